@@ -50,7 +50,9 @@ def gen(tier, seed):
 
 
 def suites(tier, seed):
-    return [Suite("id-lifecycles", "machine", lambda: mg.id_lifecycle_cases(Rng(seed + 5), 2, 5) + mg.id_lifecycle_cases(Rng(seed + 4), 2, 6, stride=23 if tier == "quick" else 2, offset=seed, prefix="k") + mg.id_lifecycle_cases(Rng(seed + 6), 3, 5 if tier == "quick" else 6, stride=19 if tier == "quick" else 29, offset=seed, prefix="j"),
+    return [Suite("highest-channel-ids", "machine", lambda: [c for c in __import__("props.c10", fromlist=["x"]).gen_loop(tier, seed) if c.cid.startswith("hi")], monitor=monitor, nontrivial=lambda c, il: True, canon=mg.canon_nondet,
+                  rule="calls on channels 65534 and 65535 (channel_max 65535) get their replies like on any other channel"),
+            Suite("id-lifecycles", "machine", lambda: mg.id_lifecycle_cases(Rng(seed + 5), 2, 5) + mg.id_lifecycle_cases(Rng(seed + 4), 2, 6, stride=23 if tier == "quick" else 2, offset=seed, prefix="k") + mg.id_lifecycle_cases(Rng(seed + 6), 3, 5 if tier == "quick" else 6, stride=19 if tier == "quick" else 29, offset=seed, prefix="j"),
                   monitor=monitor, nontrivial=lambda c, il: True, canon=mg.canon_nondet, candidate_ok=mg.candidate_ok, shards=4,
                   rule="channel_max 2: EVERY sequence of 5 operations from {open automatic, open id 1, open id 2, client closes 1 / 2, server closes 1 / 2} and a sample of the sequences of 6; channel_max 3: sequences of 5 (6) sampled; then a call in flight on every open channel, replies arriving in reverse order: each reply reaches the channel that asked, ids are never shared"),
             Suite("calls-at-api", "api", lambda: __import__("props.c12", fromlist=["x"]).gen(tier, seed + 4), monitor=__import__("props.c12", fromlist=["x"]).monitor,
